@@ -33,6 +33,39 @@ def run(ctx):
     isa = spec.load("isa")
     I = absint.Interp(p)
 
+    # ---- 0. who issues clock edges --------------------------------------------
+    # "the number of clock edges between two boundaries" counts the edges the user issues; an edge issued from anywhere
+    # else (a key handler that "helps" the machine out of a halt word, a setter that lets a pending wait elapse) is not
+    # counted and consumes a wait or a micro-step, so the cost of the next instruction depends on history.  The only caller
+    # of the raw clock edge in both crates is the clock key of `Machine`.
+    EDGE = step.RM + "::trigger_clock_edge"
+    p.need_body(EDGE)
+    p.need_body(step.MACHINE + "::trigger_key_clock")
+    cg = mirutil.call_graph(p)
+    KC = step.MACHINE + "::trigger_key_clock"
+    rev = {}
+    for k_, v_ in cg.items():
+        if k_ in p.bodies and p.bodies[k_].crate in ("L", "B"):
+            for c_ in v_:
+                rev.setdefault(c_, set()).add(k_)
+    # functions from which an edge is reached without passing through the clock key (helpers of the clock key are such
+    # functions too: they are fine as long as nobody but the clock key - or another such helper - calls them)
+    reach, todo = set(), [EDGE]
+    while todo:
+        x_ = todo.pop()
+        for c_ in rev.get(x_, ()):
+            if c_ != KC and c_ not in reach:
+                reach.add(c_)
+                todo.append(c_)
+    outside = sorted(f_ for f_ in reach if not rev.get(f_) or not rev[f_] <= (reach | {KC}))
+    chk.ob("edges/only-the-clock-key", KC in rev.get(EDGE, set()) | {c_ for f_ in reach for c_ in rev.get(f_, ())} and not outside,
+           "clock edges are issued by Machine::trigger_key_clock only (directly or through helpers nobody else calls): no other "
+           "routine of the library or the binary advances the machine by an uncounted edge", p.need_body(EDGE).loc(),
+           "routines that reach RawMachine::trigger_clock_edge without passing through the clock key and are called from "
+           "elsewhere (or from nowhere): %s; direct callers besides the clock key: %s"
+           % (outside, sorted(rev.get(EDGE, set()) - {KC})),
+           "who-may-call over the resolved call graph (both crates)")
+
     # ---- 1. wait flag ---------------------------------------------------------
     nbus = 0
     for a in sorted(g.prog):
